@@ -267,8 +267,14 @@ def build_modelrun(engine):
 def run_model(engine, script, args=(), timeout=600):
     """Run the extracted model of `engine` on a script (stdin); returns its output lines."""
     exe = os.path.join(BUILD, "ocaml", engine, "modelrun")
+
+    def big_stack():          # extracted list functions are not tail recursive; lift the 8 MB default stack
+        import resource
+        soft, hard = resource.getrlimit(resource.RLIMIT_STACK)
+        want = 4 << 30
+        resource.setrlimit(resource.RLIMIT_STACK, (want if hard == resource.RLIM_INFINITY else min(want, hard), hard))
     p = subprocess.run([exe] + list(args), input=script, stdout=subprocess.PIPE, stderr=subprocess.PIPE, text=True,
-                       timeout=timeout)
+                       timeout=timeout, preexec_fn=big_stack)
     if p.returncode != 0:
         raise Infra("modelrun %s failed: %s" % (engine, p.stderr[-2000:]))
     lines = p.stdout.split("\n")
